@@ -31,6 +31,12 @@ lines.append("")
 notin = [m["id"] for ms in [x[1] for x in allr] for m in ms if m.get("confirmed") and outcome(m) != "input"]
 unconf = [m["id"] for ms in [x[1] for x in allr] for m in ms if not m.get("confirmed")]
 lines.append("Not reported with an input at the end: %s. Not confirmed here (the demonstration did not behave as stated in the evaluation run; kept for the record, not counted): %s.\n" % (", ".join(notin) or "none", ", ".join(unconf) or "none"))
+lines.append("C03-e (the experiment reconcile that produces the verdict still reconciles trials, and marks the experiment Failed as well when the")
+lines.append("suggestion has failed) changes the writes of ordinary histories (one more sync after a goal verdict), which breaks the")
+lines.append("correspondence; its violation needs a suggestion that fails while trials exist, which the environment of the model does not produce")
+lines.append("(a suggestion fails at validation, before any trial). C08-e and C08-b (the suggestion status written by retry-on-conflict / by a")
+lines.append("merge patch) lose assignments only when the writer's copy misses assignments appended since; the histories of a quick run")
+lines.append("expose the broken correspondence (conditions overwritten) every time, the lost assignment only for some seeds.\n")
 lines.append("What was missing when a change of rounds 2–4 was missed or reported without an input the first time, and what was strengthened (every")
 lines.append("strengthening is generic: none mentions the change):\n")
 lines.append(subprocess.run(["python3", os.path.join(V, "tools", "seed_history.py")], stdout=subprocess.PIPE, text=True).stdout)
